@@ -86,9 +86,12 @@ func (i *postingsIterator) Advance(number uint64) (segment.Posting, error) {
 		if err != nil {
 			return nil, err
 		}
-		// close the current term field reader before replacing it with a new one
-		_ = i.Close()
-		*i = *(i2.(*postingsIterator))
+		// replace the current term field reader by the new one, and recycle the
+		// OLD state through the new object: `i` itself stays in use by the caller
+		// and must not be handed to the recycling pool
+		fresh := i2.(*postingsIterator)
+		*i, *fresh = *fresh, *i
+		_ = fresh.Close()
 	}
 	segIndex, ldocNum := i.snapshot.segmentIndexAndLocalDocNumFromGlobal(number)
 	if segIndex >= len(i.snapshot.segment) {
